@@ -59,9 +59,16 @@ HARNESSES = HARNESSES + _lp_init("quick", 8, 3, 3) + _lp_init("thorough", 16, 4,
 # ---- multi-arena checkpoint take / restore (multi.c with the real ckpt.c and buddy.c, reduced geometry)
 _sp12 = _ilu.spec_from_file_location("spec_C12_for_C05", _os.path.join(_os.path.dirname(__file__), "C12.py"))
 _m12 = _ilu.module_from_spec(_sp12); _m12.H = H; _sp12.loader.exec_module(_m12)
+FMM = "harness/c05_multi_modular.c"
+_UWM = tuple([f"{e}.{k}:8" for e in ("h_take_modular", "h_take_restore_modular") for k in range(8)] + ["aidx.0:6", "expected_size.0:6", "free.0:10", "memcpy.0:6",
+             "model_allocator_checkpoint_take.0:6", "model_allocator_checkpoint_take.1:6", "model_allocator_checkpoint_restore.0:6", "model_allocator_checkpoint_restore.1:6", "model_allocator_checkpoint_restore.2:5"])
 HARNESSES = HARNESSES + [
-    _m12.multi("multi_take_restore", "h_ckpt_take_restore", "model_allocator_checkpoint_take under INV_MM never exceeds the full_ckpt_size buffer and logs (ref_i, ckpt); after arbitrary clobbering of one arena and optional growth to a further arena, model_allocator_checkpoint_restore restores tree and live bytes exactly, re-initialises arenas created after the checkpoint and re-establishes INV_MM (the 'forgotten size of a new arena corrupts the NEXT checkpoint' case)",
-                (4, 1), ("quick", "thorough"), to=2400, pid="C05"),
+    H(name="C05.multi_take.modular", file=FMM, entry="h_take_modular", funcs=["model_allocator_checkpoint_take"], kind="bounded", bound="<= 3 arenas (any numbers of live bytes); per-arena functions by their contracts (executable stubs)",
+      unwindset=_UWM, timeout=900, mem_gb=12, canaries=2, objbits=8,
+      desc="under INV_MM the buffer of exactly full_ckpt_size bytes (CBMC malloc of that size) holds every arena record and the end marker: no write past it; every arena saved once; log gains (ref_i, ckpt)"),
+    H(name="C05.multi_take_restore.modular", file=FMM, entry="h_take_restore_modular", funcs=["model_allocator_checkpoint_take", "model_allocator_checkpoint_restore"], kind="bounded",
+      bound="<= 3 arenas in total, any split between arenas existing at the checkpoint and created after it", unwindset=_UWM, timeout=900, mem_gb=12, canaries=2, objbits=8,
+      desc="records go back to their own arenas, arenas created after the checkpoint are re-initialised, INV_MM (size accounting incl. new arenas) holds again"),
 ]
 HARNESSES = HARNESSES + [
     _m12.multi("restore_scan", "h_restore_scan", "model_allocator_checkpoint_restore log scan (<= 3 logs, arbitrary non-decreasing references, any target): the newest checkpoint not after the target is used, the table is cut right after it, later checkpoints are released once each, full_ckpt_size taken from it",
